@@ -144,6 +144,7 @@ def build(prop, tier="quick"):
         "const Type_Info *Boxed_Value_get_type_info(const Boxed_Value *self)",
         "bool Boxed_Value_is_const(const Boxed_Value *self)",
         "void *throw_if_null(void *t)", "const void *throw_if_null_c(const void *t)",
+        "const Result *cast_const_ref(const Boxed_Value *ob)", "Result *cast_ref(const Boxed_Value *ob)",
     ]
     kb.add("\n".join(s + ";" for s in sigs))
 
@@ -239,9 +240,16 @@ def build(prop, tier="quick"):
         rr.add("R4.vt_m", r"\bverify_type\(ob, typeid\(Result\), ob\.get_ptr\(\)\)", "verify_type_m(ob, &verif_typeid_Result, Boxed_Value_get_ptr(ob))")
         rr.add("R4.vtn_c", r"\bverify_type_no_throw\(ob, typeid\(Result\), ob\.get_const_ptr\(\)\)", "verify_type_no_throw_c(ob, &verif_typeid_Result, Boxed_Value_get_const_ptr(ob))")
         rr.add("R4.vtn_m", r"\bverify_type_no_throw\(ob, typeid\(Result\), ob\.get_ptr\(\)\)", "verify_type_no_throw_m(ob, &verif_typeid_Result, Boxed_Value_get_ptr(ob))")
+        # a helper implemented through another helper (sibling specialisation), and std::move / const_cast on the
+        # referenced object: references are pointers here, so std::move(x) is x and const_cast<Result &>(x) is (Result *)x
+        rr.add("R4.sib_cref", r"\bCast_Helper_Inner<const Result &>::cast\(ob, NULL\)", "(*cast_const_ref(ob))")
+        rr.add("R4.sib_ref", r"\bCast_Helper_Inner<Result &>::cast\(ob, NULL\)", "(*cast_ref(ob))")
+        rr.add("R6.const_cast_ref", r"\bconst_cast<Result &>\(", "*(Result *)&(")
+        rr.add("R6.move", r"\bstd::move\(", "(")
         c = C(cname)
+        before = dict(kb.rules_fired)
         kb.emit_function(csig, sl, rr, c.fn, c.loops, cname, post=refret if is_ref else None)
-        if sum(kb.rules_fired.get(k, 0) for k in ("R4.vt_c", "R4.vt_m", "R4.vtn_c", "R4.vtn_m")) < 1:
+        if sum(kb.rules_fired.get(k, 0) - before.get(k, 0) for k in ("R4.vt_c", "R4.vt_m", "R4.vtn_c", "R4.vtn_m", "R4.sib_cref", "R4.sib_ref")) < 1:
             raise ExtractionBreak("%s: verify call not recognised" % cname)
 
     cast("struct Cast_Helper_Inner<const Result *>", "static const Result *cast(const Boxed_Value &ob, const Type_Conversions_State *)",
@@ -252,6 +260,21 @@ def build(prop, tier="quick"):
          "cast_const_ref", "const Result *cast_const_ref(const Boxed_Value *ob)", True)
     cast("struct Cast_Helper_Inner<Result &>", "static Result &cast(const Boxed_Value &ob, const Type_Conversions_State *)",
          "cast_ref", "Result *cast_ref(const Boxed_Value *ob)", True)
+    cast("struct Cast_Helper_Inner<Result &&>", "static Result &&cast(const Boxed_Value &ob, const Type_Conversions_State *)",
+         "cast_rref", "Result *cast_rref(const Boxed_Value *ob)", True)
+
+    # --- Boxed_Value::Data::operator= (Boxed_Value::assign: `var &r = c`, `r := c`, assignment of return values)
+    sl = bv.slice_function("Data &operator=(const Data &rhs)", after=dsl.ob)
+    r = base_rules()
+    r.add("R9.any", r"\bm_obj = rhs\.m_obj;", "/* R9: m_obj (Any) dropped from Data */")
+    r.add("R9.attrs", r"if \(rhs\.m_attrs\) \{[^}]*\}", "/* R9: attribute map dropped from Data */")
+    r.add("R1.fields", r"(?<![\w.>])(m_type_info|m_is_ref|m_data_ptr|m_const_data_ptr|m_return_value)\b(?!\()", r"self->\1")
+    r.add("R2.rhs", r"\brhs\.(m_\w+)", r"rhs->\1")
+    r.add("R3.ti_const", r"\bself->m_type_info\.is_const\(\)", "Type_Info_is_const(&self->m_type_info)")
+    r.add("R3.ti_const_rhs", r"\brhs->m_type_info\.is_const\(\)", "Type_Info_is_const(&rhs->m_type_info)")
+    r.add("R1.retthis", r"\breturn \*this;", "return;")
+    c = C("Data_assign")
+    kb.emit_function("void Data_assign(Data *self, const Data *rhs)", sl, r, c.fn, c.loops, "Data_assign")
 
     # --- targets (everything is loop-free and tiny: callees are inlined, each function is
     # still proved against its own contract)
@@ -274,8 +297,9 @@ def build(prop, tier="quick"):
     H("verify_type_no_throw_m", "Boxed_Value *b; const verif_type_info *t; void *p;", "verify_type_no_throw_m(b, t, p)")
     H("verify_type_c", "Boxed_Value *b; const verif_type_info *t; const void *p;", "verify_type_c(b, t, p)")
     H("verify_type_m", "Boxed_Value *b; const verif_type_info *t; void *p;", "verify_type_m(b, t, p)")
-    for cn in ("cast_const_ptr", "cast_ptr", "cast_const_ref", "cast_ref"):
+    for cn in ("cast_const_ptr", "cast_ptr", "cast_const_ref", "cast_ref", "cast_rref"):
         H(cn, "Boxed_Value *b;", "%s(b)" % cn)
+    H("Data_assign", "Data *d; const Data *r;", "Data_assign(d, r)")
     kb.assumptions += [
         "A7: std::type_info equality is identity of the type (modelled as an id comparison)",
         "std::shared_ptr<Data> is a plain pointer here; chaiscript::detail::Any (m_obj) and attributes (m_attrs) are dropped from Data - "
